@@ -682,6 +682,10 @@ def removal_guard(P, R):
         ns = any(is_field(g[0], 'specified') and g[1] == '==' and const_of(g[2]) == 0 for g in gs)
         hp = any(is_field(g[0], 'parent') and g[1] == '!=' and const_of(g[2]) == 0 for g in gs)
         R.ob('C15.GRD.2', np and ns and hp, s, 'a leftover is removed only when absent from the file, not registered, and attached to a parent', key='leftover-guard')
+        # ... and WHENEVER it is: nothing else about the node (a hook a consumer installed, its kind, its value) keeps an
+        # unregistered leftover in the tree - "unregistered leftovers of earlier files are gone"
+        extra = [g for g in gs if isinstance(g[0], dict) and g[0].get('k') == 'mem' and is_var(root_var(g[0]), tgt) and g[0].get('field') not in ('present', 'specified', 'parent')]
+        R.ob('C15.GRD.2', not extra, s, 'the removal of a leftover depends on nothing but its present bit, its registration and its parent%s' % ('' if not extra else ' (it also requires %s)' % ', '.join('%s %s %s' % (sx(g[0]), g[1], sx(g[2])) for g in extra)), key='leftover-only')
         if pres:
             R.ob('C15.GRD.2', rv.path_avoiding(None, lambda t: any(t.key == q.key for q in pres), target=s.bid, from_entry=True) is None or any(q.bid == s.bid and q.idx < s.idx for q in pres), s,
                  'the present bit is up to date when the leftover test runs', key='present-before-test')
